@@ -34,7 +34,7 @@ type propSpec struct {
 
 var props = map[string]propSpec{
 	"C01": {"C01", []string{"genmap", "genselect", "gensep", "rnd-gen"}, "", nil},
-	"C02": {"C02", []string{"genmap", "rnd-gen"}, "", nil},
+	"C02": {"C02", []string{"genmap", "rnd-gen", "empty", "rnd-empty"}, "", nil},
 	"C03": {"C03", []string{"empty", "rnd-empty"}, "", nil},
 	"C04": {"C04", []string{"empty", "rnd-empty"}, "", nil},
 	"C05": {"C05", []string{"reset", "rnd-reset"}, "", nil},
@@ -120,6 +120,9 @@ func fail2(format string, a ...interface{}) {
 func main() {
 	initRoot()
 	pipeline.HarnessDir = filepath.Join(verifRoot, "harness")
+	if r := os.Getenv("VERIF_REPO"); r != "" {
+		pipeline.RepoDir = r
+	}
 	if len(os.Args) < 2 {
 		fail2("usage: check setup | check <property> --tier quick|thorough [--replay <bundle>]")
 	}
@@ -401,6 +404,9 @@ func firstError(out string) string {
 }
 
 func writeEvidence(p propSpec, tier string, seed int64, e evidence) {
+	if pipeline.RepoDir != "/repo" {
+		return // a development run against another tree says nothing about /repo
+	}
 	cov := map[string]interface{}{
 		"states": e.states, "transitions": e.transitions, "traces_validated_against_impl": e.traces,
 		"evaluations": e.evals, "distinct_nontrivial": e.distinct,
